@@ -18,7 +18,7 @@ RULE = ("stratified + seeded random (configuration, sample) pairs inside the doc
 REQUIRED = [f"contract:NonnegMean.{t}" for t in nn.TESTS] + ["stratum:len1", "stratum:m_to_0", "stratum:m_to_u",
                                                              "stratum:m_above_u", "stratum:m_below_0",
                                                              "random_order_false", "stratum:nondyadic_runs", "stratum:long_sample", "integer_dtype_samples", "object_warmed_up_with_another_N", "object_built_with_another_u",
-            "object_used_on_another_sample_first"]
+            "object_used_on_another_sample_first", "calls_with_boundary_tolerances_passed_by_the_caller"]
 ASSUMPTIONS = ["samples are numpy arrays of floats in [0,u] (dyadic in the boundary strata, runs of non-representable values in the nondyadic stratum); documented exclusions: finite-N SPRT with "
                "random_order=False (raises by design), Kaplan-Markov/Wald with finite N",
                "numpy/pandas are trusted"]
@@ -114,7 +114,11 @@ def run_shard(spec, rec):
         st, x = nn.gen_sample(rng, cfg, stratum=st, nondyadic=(1.0 if i % 7 == 6 else 0.0))
         if not nn.in_domain(cfg, x):
             continue
-        run_case({"cfg": cfg, "x": x, "stratum": st}, rec)
+        case = {"cfg": cfg, "x": x, "stratum": st}
+        if i % 11 == 10 and cfg["test"] in ("alpha_mart", "betting_mart", "wald_sprt"):
+            # the boundary tolerances are per-call tuning parameters of these three tests: exact comparison is a legal choice
+            case["test_kwargs"] = rng.choice(({"atol": 0}, {"atol": 0, "rtol": 0}, {"rtol": 0}, {"atol": 1e-12}))
+        run_case(case, rec)
 
 
 def run_case(case, rec):
@@ -147,4 +151,7 @@ def run_case(case, rec):
         rec.count("regime:total_exceeds_Nt")
     obj = nn.build(cfg)
     with np.errstate(all="ignore"):
-        rec.guard(f"c11.call:{nn.label(cfg)}", obj.test, nn.to_array(x, cfg))
+        tk = case.get("test_kwargs") or {}
+        if tk:
+            rec.count("calls_with_boundary_tolerances_passed_by_the_caller")
+        rec.guard(f"c11.call:{nn.label(cfg)}", obj.test, nn.to_array(x, cfg), **tk)
